@@ -1354,3 +1354,92 @@ def t_molodensky(cx):
                   "%s Molodensky: with da = df = 0, %s %s - not the linearised cartesian shift (e.g. the ellipsoidal height "
                   "missing from a denominator of the full formulas)" % (mode, label, why), cx.where(f.d["span"]))
     cx.count("T-MOLODENSKY", "identities", n)
+
+
+@rule("R-MOLO-NO-PARTIAL-BYPASS", ["C07"])
+def r_molo_no_partial_bypass(cx):
+    """Molodensky's correction depends on the three translations *and* on da / df (the change of ellipsoid). If the
+    common apply function returns a success count without entering its per-tuple loop, the decision must rest on all of
+    these parameters: a short-cut for dx = dy = dz = 0 alone skips the change of ellipsoid (`ellps_0=WGS84 ellps_1=intl`
+    with a null shift moves a point by some 90 m horizontally and 190 m in height)."""
+    import guards
+    name = "inner_op::molodensky::common"
+    if not cx.f.has_fn(name):
+        cx.ob("R-MOLO-NO-PARTIAL-BYPASS", "anchor", False, "anchor-missing: %s" % name)
+        return
+    f = cx.f.fn(name)
+    heads = [pt.header for pt in pertuple.per_tuple_loops(f)]
+    if not heads:
+        heads = [lp.header for lp in f.loops() if lp.parent is None]
+    rets = [b for b in f.reachable() if f.term(b)["k"] == "return"]
+    used = set()
+    for r in K.find_reads(cx.f, f):
+        if r.map == "real":
+            used.add(r.key)
+    free = f.reach_from([0], avoid=tuple(heads)) if heads else set()
+    n = 0
+    ok = bool(heads)
+    why = ""
+    for b in sorted(free):
+        t = f.term(b)
+        if t["k"] != "switch" or [v for v, _ in t["targets"] if v != 0]:
+            continue
+        for x in set(f.succ[b]):
+            if any(h in f.reach_from([x]) for h in heads) or not any(r in f.reach_from([x]) for r in rets):
+                continue
+            # x starts a pure by-pass. Is it an error / missing-parameter exit (returns the constant 0)?
+            n += 1
+            facts = guards.branch_facts(f, x)
+            sd = guards._side(f, b, x)
+            if sd is not None:
+                facts |= guards.implied(f, f.operand(t["discr"], f.end_point(b)), sd)
+            keys = set()
+            for at, tv in facts:
+                if mir.strip_refs(at)[0] == "bin":      # tests of the values, not of the presence of a parameter
+                    keys |= _keys_deep(f, at)
+            compares_values = any(mir.strip_refs(at)[0] == "bin" for at, tv in facts)
+            if not compares_values:
+                continue        # decided by the presence of a parameter (the `let Ok(dx) = .. else { return 0 }` exits)
+            missing = sorted(k for k in used if k not in keys)
+            if missing:
+                ok = False
+                why = ", ".join(missing)
+    cx.ob("R-MOLO-NO-PARTIAL-BYPASS", "common", ok,
+          "molodensky never by-passes its loop on the strength of a part of its parameters" if ok else
+          "molodensky::common returns without entering its per-tuple loop on a test that does not look at %s: with a null "
+          "translation the change of ellipsoid (da, df) is silently skipped" % why, cx.where(f.d["span"]))
+    cx.count("R-MOLO-NO-PARTIAL-BYPASS", "bypasses", n)
+
+
+@rule("R-FIXED-TIME", ["C07"])
+def r_fixed_time(cx):
+    """"Fixing t_obs is equivalent to giving every tuple that epoch" - for *every* t_obs, t_obs = t_epoch included. The
+    flag `fixed_time` is set whenever a (non-NaN) t_obs is given; the decision does not compare t_obs with the epoch (or
+    their difference with zero): if it did, `t_obs == t_epoch` would fall back to evaluating the parameters at each
+    tuple's own epoch."""
+    import guards
+    f = cx.f.fn("inner_op::helmert::new")
+    n = 0
+    for bb, t in f.calls():
+        c = f.callee(t) or ""
+        if not c.endswith("BTreeSet::<T, A>::insert"):
+            continue
+        a = f.arg_terms(bb)
+        if K.receiver_map(cx.f, a[0]) != "boolean" or K._const_key(a[1]) != "fixed_time":
+            continue
+        n += 1
+        bad = []
+        for at, tv in guards.branch_facts(f, bb):
+            at = mir.strip_refs(at)
+            if at[0] == "bin" and at[1] in ("Eq", "Ne", "Lt", "Le", "Gt", "Ge"):
+                ks = _keys_deep(f, at)
+                if "t_epoch" in ks and "t_obs" in ks:
+                    bad.append(at)
+        cx.ob("R-FIXED-TIME", "new/fixed_time%d" % (n - 1), not bad,
+              "fixed_time is set for every given t_obs" if not bad else
+              "helmert::new sets `fixed_time` only if a comparison of t_obs with t_epoch comes out a certain way (%s): for "
+              "t_obs == t_epoch the operator evaluates its parameters at each tuple's own epoch instead" %
+              mir.show(bad[0], maxd=3)[:60], cx.where(t["span"]))
+    if n == 0:
+        cx.ob("R-FIXED-TIME", "new/fixed_time", False, "anchor-missing: helmert::new never sets fixed_time", cx.where(f.d["span"]))
+    cx.count("R-FIXED-TIME", "inserts", n)
